@@ -148,7 +148,7 @@ var propRules = map[string]*PropSpec{
 		Technique:  techMix,
 	},
 	"C10": {
-		Rules:       []string{"B1", "B4", "B5", "T1", "V1", "V2", "U1", "G1", "U3", "L4", "B6", "UNS1", "PT2", "B8"},
+		Rules:       []string{"B1", "B4", "B5", "T1", "V1", "V2", "U1", "G1", "U3", "L4", "B6", "UNS1", "PT2", "B8", "T2"},
 		Explanation: explBase + " C10: decoder error discipline, Must* wrappers, bounded reads, size fields bounded before allocation, validator conjuncts (incl. the wrap bound on every run), no 16-bit arithmetic in the frozen reader.",
 		Decided: []string{
 			"FrozenView evaluates all 256 type-code values: each is either built or rejected",
@@ -156,8 +156,9 @@ var propRules = map[string]*PropSpec{
 			"no decoder consults cap() of the caller's bytes",
 			"no decoder drops one of its parameters (MustReadFrom/ReadFrom forward the pre-read cookie)",
 			"decoders use no package-level scratch memory",
-			"no decoder error is dropped (incl. SkipBytes); MustReadFrom returns ReadFrom's results and panics only with Validate's error", "byte sources check bounds before every slice/advance", "decoded sizes are bounded by a constant before make()/slicing (32-bit decoders)", "validators contain every conjunct the property lists, evaluated on every element"},
-		NotDecided: []string{"absence of panics in general (arithmetic sufficiency of frozenView's length guards)", "hang-freedom", "mutual consistency of queries on validated input"},
+			"no decoder error is dropped (incl. SkipBytes); MustReadFrom returns ReadFrom's results and panics only with Validate's error", "byte sources check bounds before every slice/advance", "decoded sizes are bounded by a constant before make()/slicing (32-bit decoders)", "validators contain every conjunct the property lists, evaluated on every element",
+			"totals that FrozenView adds up from the footer's counts and compares with the buffer length have 64 bits on every target"},
+		NotDecided: []string{"absence of panics in general (arithmetic sufficiency of frozenView's length guards beyond their width)", "hang-freedom", "mutual consistency of queries on validated input"},
 		Technique:  techErr + "; taint of decoded sizes",
 	},
 	"C11": {
@@ -184,7 +185,7 @@ var propRules = map[string]*PropSpec{
 		Technique:  "static analysis: goroutine/channel/WaitGroup/pool skeleton rules over go/ssa CFG (must-pass-through, at-most-once)",
 	},
 	"C13": {
-		Rules:       []string{"L4", "L1", "B1", "B3", "A4", "T1", "R1", "B6", "UNS1", "G1", "UNS2"},
+		Rules:       []string{"L4", "L1", "B1", "B3", "A4", "T1", "R1", "B6", "UNS1", "G1", "UNS2", "T2"},
 		Explanation: explBase + " C13: the three frozen writers, the size predictor and the reader agree on type codes, count fields, element sizes and arena order; FreezeTo checks the buffer before writing; errors propagate; the view is flagged.",
 		Decided: []string{
 			"the frozen view's container table and headers live in typed (scanned) memory",
